@@ -713,6 +713,11 @@ def o_c16(meta, ans, ctx):
         wv = toks.get('WV')
         if not same(toks.get('WS'), wv, mtoks.get('WV')): return 'nested-slice: a structure holding the slice differs from the one holding the vector'
         if toks.get('WI') != '-' and not same(toks.get('WI'), wv, mtoks.get('WV')): return 'nested-iter: a structure holding the iterator differs from the one holding the vector'
+        ev = toks.get('EV')
+        if ev is not None:
+            if not same(toks.get('ES'), ev, mtoks.get('EV')): return 'enum-slice: an enum variant holding the slice differs from the one holding the vector'
+            if toks.get('EI') != '-' and not same(toks.get('EI'), ev, mtoks.get('EV')): return 'enum-iter: an enum variant holding the iterator differs from the one holding the vector'
+            if toks.get('EU') != toks.get('EUV'): return 'enum-unit: the unit variant of an enum parameterised by a slice differs from the one parameterised by a vector'
         if 'intact=true' not in ans: return 'intact: the source vector changed'
         return None
     if k == 'iter':
